@@ -12,6 +12,8 @@ import os, math, cmath, json
 import vlib, femgen, femmrun, geomgen
 from femgen import Builder, mesh_diameter, UNIT_M
 
+# theorems about the axisymmetric magnetics model AsmMAxi.v that belong to this property (the model is tied to the code by C05 / C11: props/xaxi.py)
+EXTRA_PROPERTY_FILES = ["C06_axi"]
 LEVEL = "proof"
 COQ_MODULES = []
 ASSUMPTIONS = [
